@@ -12,7 +12,7 @@ DAG_COMMON = ["settled_points", "mutex_contended", "chan_send_blocked", "map_ord
               "shared_task_ran_in_three_graphs", "dfs_while_running", "task_error", "skip_parents", "skip_parents_wrapped",
               "skip_parents_joined", "skip_parents_custom_is", "cancel_external", "cancel_in_task", "cancel_before_run",
               "stall_task", "clock_advance_while_runnable", "writer_yield", "writer_error", "log_writer_error", "big_output",
-              "nested_graph_run", "retries_lowered_by_a_dependency", "set_max_parallel_during_run", "starve_goroutine"]
+              "nested_graph_run", "set_max_parallel_during_run", "starve_goroutine"]
 need = {
     "C13": DAG_COMMON + ["task_error_transient", "transient_then_ok"],
     "C14": DAG_COMMON + ["cancel_observed", "cancel_observed_with_tasks_in_flight", "launches_between_cancel_and_observation",
